@@ -16,6 +16,7 @@ import (
 	"com.tuntun.rangers/node/src/common"
 	"com.tuntun.rangers/node/src/middleware/types"
 	"com.tuntun.rangers/node/src/service"
+	"com.tuntun.rangers/node/src/storage/account"
 	"com.tuntun.rangers/node/src/zzverif/node"
 	"com.tuntun.rangers/node/src/zzverif/runner"
 	"com.tuntun.rangers/node/src/zzverif/simdisk"
@@ -58,7 +59,7 @@ func (c06) Budget(tier string) runner.Budget {
 
 func (c06) Describe() runner.Description {
 	return runner.Description{
-		Rule:        "each plan: 3..16 blocks, one transaction per block in ~80% of blocks (so the per-transaction statement is judged), value-heavy mix: multi-target transfers that fail part-way, zero/fractional/>18-decimal/negative/huge amounts, fee with insufficient balance, contract create with endowment (succeeding and failing; native and wrapped-Ethereum type 188 form), calls with value into programs that forward value, AUTHCALLs with value through a contract that holds an externally owned account's authorisation (sponsor = origin, often the poor account), revert, burn all gas after moving value, self-destruct to the caller / to themselves, gas limits at and below the intrinsic cost (gas starvation), miner apply/add-stake/refund (stake lock and escrow), heights jumping to escrow release heights. After every block over the closed universe U (harness accounts, fee account, every contract ever created, miner accounts, escrow beneficiaries): sum(after) - sum(before) = + escrow released at this height (read from the escrow entries before the block) - stake locked by accepted apply/add-stake - balance of a contract that self-destructed naming itself; every balance in [0, 2^256); a failed transaction leaves the sum unchanged. distinct_nontrivial = distinct (tx kind, status, sum-delta sign) sequences with at least one failed value-moving transaction.",
+		Rule:        "each plan: 3..16 blocks, one transaction per block in ~80% of blocks (so the per-transaction statement is judged), value-heavy mix: multi-target transfers that fail part-way, zero/fractional/>18-decimal/negative/huge amounts, fee with insufficient balance, contract create with endowment (succeeding and failing; native and wrapped-Ethereum type 188 form), calls with value into programs that forward value, AUTHCALLs with value through a contract that holds an externally owned account's authorisation (sponsor = origin, often the poor account), revert, burn all gas after moving value, self-destruct to the caller / to themselves, gas limits at and below the intrinsic cost (gas starvation), miner apply/add-stake/refund (stake lock and escrow), heights jumping to escrow release heights. After every block over the closed universe U (harness accounts, fee account, every contract ever created, miner accounts, escrow beneficiaries): sum(after) - sum(before) = + escrow released at this height (read from the escrow entries before the block) - stake locked by accepted apply/add-stake - balance of a contract that self-destructed naming itself; every balance in [0, 2^256); a failed transaction leaves the sum unchanged; an accepted stake refund moves exactly what leaves the miner's recorded stake into the escrow of its release height. distinct_nontrivial = distinct (tx kind, status, sum-delta sign) sequences with at least one failed value-moving transaction.",
 		Assumptions: []string{"the address universe is closed under the generated transactions (targets, beneficiaries and created contracts are added as they appear)", "block rewards are scheduled into per-height escrow and only enter balances when released; the released amount is read from the escrow, not recomputed"},
 		Real:        []string{"core/vmexecutor", "executor (operator, contract, miner)", "vm (EVM: CALL/CREATE/SELFDESTRUCT with value)", "service (ChangeAssets, fee processing, miner/refund/reward managers)", "storage/account balances in the bound token contract"},
 		Stub:        []string{"ConsensusHelper", "network", "NTP clock"},
@@ -411,6 +412,30 @@ func (c06) Exec(raw json.RawMessage, st *simrt.Stats, log *simrt.Log) *simrt.Vio
 				if k := strings.Index(rc.Msg, "height: "); k >= 0 {
 					fmt.Sscanf(rc.Msg[k:], "height: %d, money: %d", &h, &m)
 					escrowHeights[h] = true
+				}
+				// a stake refund moves exactly what leaves the miner's recorded stake into the escrow of
+				// its release height (judged when the refund is the block's only transaction)
+				if rb := common.GetRewardBlocks(); len(b.Txs) == 1 && h != 0 && h != height && !(rb > 0 && h%rb == 0) {
+					stakeOf := func(db *account.AccountDB) uint64 {
+						if mi := service.MinerManagerImpl.GetMiner(node.MinerID(s.Miner), db); mi != nil {
+							return mi.Stake
+						}
+						return 0
+					}
+					esc := func(db *account.AccountDB) *big.Int {
+						sum := new(big.Int)
+						for _, v := range db.GetAllRefund(service.SimRefundAddress(h)) {
+							sum.Add(sum, v)
+						}
+						return sum
+					}
+					left := tokens(stakeOf(pre))
+					left.Sub(left, tokens(stakeOf(post)))
+					grew := new(big.Int).Sub(esc(post), esc(pre))
+					st.Probe("stake_refund_judged")
+					if left.Cmp(grew) != 0 {
+						return viol(bi, "stake-refund-not-exact", "tx-refund", "refund of %s for miner %d: the recorded stake fell by %s, the escrow of height %d grew by %s", s.Amount, s.Miner, left.String(), h, grew.String())
+					}
 				}
 			case "create":
 				universe[rc.ContractAddress] = true
